@@ -408,6 +408,61 @@ static std::string check_bound(const CaseSpec &cs, const EncodeResult &er, const
   return "";
 }
 
+static bool has_tag(const CaseSpec &cs) {
+  if (cs.g.atts.empty()) return false;
+  const AttSpec &t = cs.g.atts.back();
+  if (t.unique_id < 777000 || t.unique_id >= 777016 || t.dtype != draco::DT_UINT32 || t.ncomp != 1 || t.data.size() != 4 * static_cast<size_t>(cs.g.npoints)) return false;
+  for (uint32_t p = 0; p < cs.g.npoints; ++p)
+    if (memcmp(t.data.data() + 4 * p, &p, 4) != 0) return false;
+  return true;
+}
+// Untagged point clouds (all-float clouds take encoder paths that a cloud with an integer tag never reaches): without
+// a correspondence the bound is checked as the necessary condition "every decoded value has an original within the
+// bound and every original has a decoded value within the bound" (component-wise, same allowance).
+static std::string check_bound_untagged(const CaseSpec &cs, const EncodeResult &er, const draco::PointCloud &dec, bool *nontriv) {
+  const Expected e = compute_expected(cs, er.geometry_type, er.method);
+  for (size_t ai = 0; ai < cs.g.atts.size(); ++ai) {
+    if (e.kind[ai] != kQuantized) continue;
+    const AttSpec &a = cs.g.atts[ai];
+    const RefQuant &rq = e.quant[ai];
+    if (!rq.valid) return "encode succeeded although no quantization exists (non-finite values)";
+    const draco::PointAttribute *d = att_by_uid(dec, a.unique_id);
+    if (!d || d->data_type() != draco::DT_FLOAT32 || d->num_components() != a.ncomp) return "quantized attribute changed its descriptor";
+    const double R = rq.range, step = R / (std::ldexp(1.0, rq.bits) - 1.0);
+    std::vector<std::vector<float>> in, out;
+    for (uint32_t p = 0; p < cs.g.npoints; ++p) {
+      std::vector<float> v(a.ncomp);
+      for (int c = 0; c < a.ncomp; ++c) v[c] = a.getf(a.value_of_point(p), c);
+      in.push_back(v);
+    }
+    for (uint32_t p = 0; p < dec.num_points(); ++p) {
+      float o[16];
+      d->GetMappedValue(PointIndex(p), o);
+      out.push_back(std::vector<float>(o, o + a.ncomp));
+    }
+    auto near = [&](const std::vector<float> &x, const std::vector<float> &y) {
+      for (int c = 0; c < a.ncomp; ++c) {
+        const double A = c04_allow(x[c], rq.mins[c], R);
+        if (!(std::fabs(static_cast<double>(y[c]) - x[c]) <= step / 2 + A)) return false;
+      }
+      return true;
+    };
+    for (auto &y : out) {
+      bool ok = false;
+      for (auto &x : in) if (near(x, y)) { ok = true; break; }
+      if (!ok) return "untagged cloud, uid " + std::to_string(a.unique_id) + ": decoded value " + fbits(y[0]) + ".. has no original within half a step (bits " + std::to_string(rq.bits) + ", range " + fbits(rq.range) + ")";
+    }
+    for (auto &x : in) {
+      bool ok = false;
+      for (auto &y : out) if (near(x, y)) { ok = true; break; }
+      if (!ok) return "untagged cloud, uid " + std::to_string(a.unique_id) + ": original value " + fbits(x[0]) + ".. has no decoded value within half a step (bits " + std::to_string(rq.bits) + ", range " + fbits(rq.range) + ")";
+    }
+    count(rq.bits <= 8 ? "untagged_q_1_8" : rq.bits <= 20 ? "untagged_q_9_20" : "untagged_q_21_30");
+    if (out.size() >= 2 && out.front() != out.back()) *nontriv = true;
+  }
+  return "";
+}
+
 static std::string run_c04(const CaseSpec &cs0, const std::vector<std::string> &gen_classes) {
   CaseSpec cs = cs0;  // the tag attribute is part of the stored spec (added by the generator wrapper)
   std::unique_ptr<draco::PointCloud> pc = build_geometry(cs.g);
@@ -425,6 +480,14 @@ static std::string run_c04(const CaseSpec &cs0, const std::vector<std::string> &
   count("encode_ok");
   classify(cs, er);
   for (auto &c : gen_classes) count(c);
+  if (!has_tag(cs)) {
+    bool ntu = false;
+    std::string eu = check_bound_untagged(cs, er, *N.geom, &ntu);
+    if (!eu.empty()) return eu;
+    count(er.method == 1 && er.geometry_type == 0 ? "untagged_cloud_kdtree" : "untagged_cloud_sequential");
+    if (ntu) nontrivial(hash_tokens(to_tokens(cs)));
+    return "";
+  }
   std::vector<uint32_t> orig_of;
   std::string err = tag_map(cs, *N.geom, &orig_of);
   if (!err.empty()) return err;
@@ -1418,7 +1481,11 @@ int main(int argc, char **argv) {
       if (!make_normal_case(&cs, &classes)) return std::string();
       add_tag_attribute(&cs);
     }
-    if (mode == "c04") add_tag_attribute(&cs);
+    if (mode == "c04") {
+      // one in five small point clouds stays untagged (all-float clouds: kd-tree paths a tagged cloud never takes)
+      const bool untag = !cs.g.is_mesh && cs.g.npoints >= 1 && cs.g.npoints <= 1500 && hash_tokens(to_tokens(cs)) % 5 == 0;
+      if (!untag) add_tag_attribute(&cs);
+    }
     set_case(mode, to_tokens(cs), cs.g.npoints <= 200 ? describe_case(cs) : std::string());
     return run_mode(mode, cs, classes);
   };
